@@ -1,1 +1,201 @@
-(* C11 -- in progress *)
+(* C11 -- the node keeps refreshing its routing table for arbitrarily long runs: a contact that
+   always answers is kept and becomes good again soon after it turns questionable; one that goes
+   silent is purged.  Property theorems only (repaired refresh: single_refresh = true). *)
+From BT Require Import model.Prelude model.Compact model.Krpc model.Token model.Storage model.Table model.Txn model.Handler.
+From BT Require Import proofs.Table_Facts proofs.Handler_Facts proofs.Refresh_Facts.
+Open Scope Z_scope.
+
+(* ------------------------------------------------------------------ (1) the refresh chain never dies *)
+(* once a bootstrap has completed (at time t, after ANY prefix of events), then after ANY further
+   events -- datagrams, timer firings, searches, re-bootstraps, of any number, handled at
+   non-decreasing times -- the timer holds exactly one refresh entry, it is the remembered one, and
+   it is due at most one refresh interval (6 s) after the time of the last event handled *)
+Theorem c11_refresh_alive : forall I sendok cf qe id t0 evs1 t evs2,
+  etimes_from t evs2 ->
+  let s := fst (run I sendok cf true qe (ns_init id t0) (evs1 ++ (t, EvBootState BBootstrapped) :: evs2)) in
+  exists re, refresh_part (ns_timer s) = [re] /\ ns_refresh_pending s = Some (te_key re) /\
+             te_deadline re <= elast t evs2 + refresh_interval.
+Proof. exact refresh_alive_run. Qed.
+
+(* the invariant behind it, per event: whatever the event and whenever (later) it is handled, the
+   single refresh entry stays pending -- it leaves the timer only by firing, and then the round
+   schedules its successor -- and it is due within one interval *)
+Theorem c11_alive_step : forall I sendok cf qe now now' s e,
+  (exists re, refresh_part (ns_timer s) = [re] /\ ns_refresh_pending s = Some (te_key re) /\
+              te_deadline re <= now + refresh_interval) ->
+  now <= now' -> J s ->
+  let s' := fst (step I sendok cf true qe now' s e) in
+  exists re, refresh_part (ns_timer s') = [re] /\ ns_refresh_pending s' = Some (te_key re) /\
+             te_deadline re <= now' + refresh_interval.
+Proof. exact alive_step. Qed.
+
+(* the auxiliary invariant J (timer ids fresh and pairwise distinct; no live search remembers a key
+   whose id is that of a refresh entry) holds initially and is kept by every event *)
+Theorem c11_aux_init : forall id t0, J (ns_init id t0).
+Proof. exact J_init. Qed.
+
+Theorem c11_aux_step : forall I sendok cf qe now s e, J s -> J (fst (step I sendok cf true qe now s e)).
+Proof. exact step_J. Qed.
+
+(* every bootstrap completion (re)starts the chain, whatever the state was *)
+Theorem c11_boot_starts_chain : forall I sendok cf qe now s, J s -> Inv18p s ->
+  let s' := fst (step I sendok cf true qe now s (EvBootState BBootstrapped)) in
+  exists re, refresh_part (ns_timer s') = [re] /\ ns_refresh_pending s' = Some (te_key re) /\
+             te_deadline re <= now + refresh_interval.
+Proof. exact boot_alive. Qed.
+
+(* when the refresh entry fires, a round is run (and it leaves its successor, due 6 s later) *)
+Theorem c11_refresh_fires : forall I sendok cf sr qe now s e tm,
+  pop_timer (ns_timer s) = Some (e, tm) -> te_task e = TkRefresh ->
+  step I sendok cf sr qe now s EvTimer = continue_refresh I sendok cf sr now (set_timer s tm).
+Proof. exact refresh_fires. Qed.
+
+Theorem c11_round_reschedules : forall I sendok cf now s, Inv18p s ->
+  exists re, refresh_part (ns_timer (fst (continue_refresh I sendok cf true now s))) = [re] /\
+             ns_refresh_pending (fst (continue_refresh I sendok cf true now s)) = Some (te_key re) /\
+             te_deadline re = now + refresh_interval.
+Proof. exact continue_refresh_alive. Qed.
+
+(* ------------------------------------------------------------------ (2) what a round does *)
+(* the find_node queries of a round go exactly to the first refresh_concurrency (4) contacts that are
+   questionable and were not queried in the last 30 s, closest to the target first, one datagram
+   each, in that order; every one asks for our own id with the bit of the current bucket flipped.
+   (The outcome of the socket sends does not matter: these are the datagrams handed to the socket.) *)
+Theorem c11_round_picks : forall I sendok cf sr now s,
+  let b := if Nat.eqb (ns_refresh_bucket s) max_buckets then O else ns_refresh_bucket s in
+  let target := flip_bit (c_id cf) b in
+  let picks := firstn refresh_concurrency
+                 (filter (fun n => status_eqb (node_status now n) Questionable && negb (recently_requested_from now n))
+                         (closest_nodes now (ns_table s) target)) in
+  let outs := snd (continue_refresh I sendok cf sr now s) in
+  send_dsts outs = map nd_addr picks /\
+  (forall dst m, In (OSend dst m) outs ->
+     exists k, (ns_refresh_next s <= k < ns_refresh_next s + length picks)%nat /\
+       m = mkMsg (tid_bytes (aid_of I 0) (mid_of I 0 k)) (Req (FindNode (c_id cf) target None))) /\
+  (length picks <= refresh_concurrency)%nat.
+Proof. exact round_picks. Qed.
+
+(* the outputs of a round, exactly *)
+Theorem c11_round_outputs : forall I sendok cf sr now s,
+  snd (continue_refresh I sendok cf sr now s) =
+  ORefreshRound (refresh_cursor s) :: refresh_msgs I cf (refresh_picks cf now s) (refresh_target cf s) (ns_refresh_next s).
+Proof. exact round_outputs. Qed.
+
+(* the cursor moves to the next bucket, wrapping at MAX_BUCKETS; every picked contact is marked as
+   queried now (this is what counts towards the two unanswered queries below) *)
+Theorem c11_round_cursor : forall I sendok cf sr now s,
+  let b := if Nat.eqb (ns_refresh_bucket s) max_buckets then O else ns_refresh_bucket s in
+  let s' := fst (continue_refresh I sendok cf sr now s) in
+  ns_refresh_bucket s' = S b /\
+  ns_table s' = fold_left (fun t n => update_node now t (nd_id n) (nd_addr n) (local_request now))
+                          (refresh_picks cf now s) (ns_table s) /\
+  ns_refresh_next s' = (ns_refresh_next s + length (refresh_picks cf now s))%nat /\
+  ns_sends s' = (ns_sends s + length (refresh_picks cf now s))%nat.
+Proof. exact round_state. Qed.
+
+Theorem c11_picks_questionable : forall cf now s n, In n (refresh_picks cf now s) ->
+  node_status now n = Questionable /\ recently_requested_from now n = false /\
+  In n (closest_nodes now (ns_table s) (refresh_target cf s)).
+Proof. exact round_picks_questionable. Qed.
+
+(* the answer to a refresh query reaches the table: the responder as a contact that has just
+   answered, the nodes it names as hearsay *)
+Theorem c11_answer_applied : forall I sendok cf sr qe now s src tid r,
+  tid_action tid = Some (aid_of I 0) -> lookup_by_action I s (aid_of I 0) = None ->
+  step I sendok cf sr qe now s (EvMsg src (mkMsg tid (Resp r))) =
+  (set_table s (add_nodes now (ns_table s) (as_good (r_id r) src now)
+                          (map handle_of (if c_v6 cf then r_nodes6 r else r_nodes4 r))), []).
+Proof. exact refresh_response_applied. Qed.
+
+(* ------------------------------------------------------------------ (3) ageing of a contact *)
+(* an answer makes the contact good at once, whatever its state was *)
+Theorem c11_answer_makes_good : forall now n id a,
+  node_status now (node_update now n (as_good id a now)) = Good.
+Proof. exact update_good_status. Qed.
+
+Theorem c11_new_answerer_good : forall id a now, node_status now (as_good id a now) = Good.
+Proof. exact as_good_status. Qed.
+
+(* a contact is good only if it answered, or -- with fewer than two unanswered queries -- sent a
+   query, less than 15 minutes ago; so it turns questionable 15 minutes after its last sign of life *)
+Theorem c11_good_needs_recent_contact : forall now n,
+  node_status now n = Good <->
+  exists tr, last_response n = Some tr /\
+    (recent now tr \/
+     ((refresh_requests n < 2)%nat /\ exists tq, last_request n = Some tq /\ recent now tq)).
+Proof. exact status_good_iff. Qed.
+
+(* two queries left unanswered by a stale contact make it bad ... *)
+Theorem c11_two_unanswered_bad : forall now n tr,
+  last_response n = Some tr -> ~ recent now tr -> (2 <= refresh_requests n)%nat -> node_status now n = Bad.
+Proof. exact two_unanswered_bad. Qed.
+
+(* ... and it stays bad whatever queries follow, for as long as it neither answers nor is named again *)
+Theorem c11_silent_stays_bad : forall n t1 t2 post now,
+  t1 <= t2 ->
+  node_status t1 n <> Good -> is_pingable t1 n = true ->
+  node_status t2 (cstep n (t1, CQuerySent)) <> Good -> is_pingable t2 (cstep n (t1, CQuerySent)) = true ->
+  ctimes_from t2 post -> (forall e, In e post -> snd e = CQueryRecv \/ snd e = CQuerySent) ->
+  last_time t2 post <= now ->
+  node_status now (fold_left cstep post (cstep (cstep n (t1, CQuerySent)) (t2, CQuerySent))) = Bad.
+Proof. exact two_unanswered_stays_bad. Qed.
+
+(* bad contacts are not listed: not offered to others, not searched through, not refreshed *)
+Theorem c11_listed_pingable : forall now t target n,
+  In n (closest_nodes now t target) -> is_pingable now n = true.
+Proof. exact closest_pingable. Qed.
+
+Theorem c11_bad_not_listed : forall now t target n,
+  node_status now n = Bad -> ~ In n (closest_nodes now t target).
+Proof. exact bad_not_listed. Qed.
+
+Print Assumptions c11_refresh_alive.
+Print Assumptions c11_alive_step.
+Print Assumptions c11_aux_init.
+Print Assumptions c11_aux_step.
+Print Assumptions c11_boot_starts_chain.
+Print Assumptions c11_refresh_fires.
+Print Assumptions c11_round_reschedules.
+Print Assumptions c11_round_picks.
+Print Assumptions c11_round_outputs.
+Print Assumptions c11_round_cursor.
+Print Assumptions c11_picks_questionable.
+Print Assumptions c11_answer_applied.
+Print Assumptions c11_answer_makes_good.
+Print Assumptions c11_new_answerer_good.
+Print Assumptions c11_good_needs_recent_contact.
+Print Assumptions c11_two_unanswered_bad.
+Print Assumptions c11_silent_stays_bad.
+Print Assumptions c11_listed_pingable.
+Print Assumptions c11_bad_not_listed.
+
+(* non-vacuity, on a concrete run: a bootstrap that learnt of two contacts by hearsay completes at
+   1 us; the first round queries both; one of them answers, the other stays silent; a search runs
+   beside the refresh (two request timeouts and its end-game timer fire); the refresh timer fires
+   five times, 6 s apart.  Then: the hypothesis of c11_refresh_alive holds, the single refresh entry
+   is pending with deadline 36.000001 s; round 0 queried both contacts, the round at 30 s queried
+   the silent one a second time; the answering contact is good, the silent one is bad and no longer
+   listed. *)
+Example c11_nonvacuous :
+  let I := mkIds (fun k => N.of_nat k + 100)%N (fun k n => N.of_nat n) in
+  let cf := mkCfg 5 false false None in
+  let a := fun k : N => mkAddr false (167772160 + k)%N 6881%N in
+  let far := fun k : N => (2 ^ 159 + k)%N in
+  let evs1 := [(0, EvBootTable (far 7%N) (a 7%N) [(far 1%N, a 1%N); (far 2%N, a 2%N)])] in
+  let evs2 := [(2000, EvMsg (a 2%N) (mkMsg (tid_bytes 100 1) (Resp (mkResp (far 2%N) [] [] [] None))));
+               (3000, EvStartLookup 77 false);
+               (1500003000, EvTimer); (1500003000, EvTimer); (3000003000, EvTimer);
+               (6000001000, EvTimer); (12000001000, EvTimer); (18000001000, EvTimer);
+               (24000001000, EvTimer); (30000001000, EvTimer)] in
+  let res := run I (fun _ => true) cf true true (ns_init 5 0) (evs1 ++ (1000, EvBootState BBootstrapped) :: evs2) in
+  let s := fst res in
+  etimes_from 1000 evs2 /\ elast 1000 evs2 = 30000001000 /\
+  refresh_part (ns_timer s) = [mkTE 36000001000 8 TkRefresh] /\
+  ns_refresh_pending s = Some (36000001000, 8%N) /\
+  ns_refresh_bucket s = 6%nat /\
+  map send_dsts (snd res) = [[]; [a 1%N; a 2%N]; []; [a 7%N; a 2%N]; []; []; []; []; []; []; []; [a 1%N]] /\
+  map (fun n => (nd_id n, node_status 30000001000 n)) (closest_nodes 30000001000 (ns_table s) 5%N)
+    = [(far 7%N, Good); (far 2%N, Good)] /\
+  existsb (fun n => (nd_id n =? far 1%N)%N && status_eqb (node_status 30000001000 n) Bad)
+          (concat (buckets (ns_table s))) = true.
+Proof. vm_compute. repeat split; try reflexivity; discriminate. Qed.
